@@ -375,13 +375,17 @@ def sm_chart_reader(ctx: Ctx) -> None:
     ctx.expect("R-TABLE", fp, "chart components are everything after the key", len(c.args) == 1 and _is_components_tail(c.args[0], pv), src(c),
                f"{src(c)} does not pass param.components[1:]", node=c)
     # from_str splits on ':' (deprecated entry point, same funnel)
-    fs_ = p.func("simfile.sm:SMChart._from_str")
-    cc = [c for c in calls(fs_) if callee_name(ctx, fs_, c).endswith("SMChart._from_msd")]
-    c2 = one(cc, f"self._from_msd(...) call in {fs_.fq}")
-    a = c2.args[0] if c2.args else None
-    good = (isinstance(a, ast.Call) and isinstance(a.func, ast.Attribute) and a.func.attr == "split" and len(a.args) == 1 and not a.keywords
-            and try_ev(ctx, fs_, a.args[0]) == ":" and isinstance(a.func.value, ast.Name) and a.func.value.id == fs_.param_names()[1])
-    ctx.expect("R-TABLE", fs_, "from_str splits its argument on ':' without a limit", good, src(c2), f"{src(c2)}", node=c2)
+    fs_ = p.func("simfile.sm:SMChart.from_str")
+    from .tables import closed_text as _ct, sums_of as _ts
+    ssums = _ts(ctx, fs_)
+    sp_ = fs_.param_names()[1]
+    texts = set()
+    for s_ in ssums:
+        for e in s_.effects:
+            if e.kind == "expr" and isinstance(e.value, ast.Call) and isinstance(e.value.func, ast.Attribute) and e.value.func.attr == "_from_msd":
+                texts.add(ast.unparse(e.value.args[0]) if len(e.value.args) == 1 else ast.unparse(e.value))
+    ctx.expect("R-TABLE", fs_, "from_str splits its argument on ':' without a limit and hands the pieces to the same funnel (_from_msd)", texts == {f"{sp_}.split(':')"}, str(sorted(texts)),
+               f"_from_msd receives {sorted(texts)}", node=fs_.node)
 
 
 # ---------------------------------------------------------------------------
